@@ -55,6 +55,7 @@ type hScenario struct {
 	Pre         [][]string `json:"pre,omitempty"`          // per assigned vBucket (index): kinds of the events the server already holds when the first session opens
 	KeepF1      bool       `json:"keep_f1,omitempty"`      // do not exclude the known finding F1 by construction (units whose oracle is not C01's)
 	File        bool       `json:"file,omitempty"`         // real file metadata backend (whole-state writes) instead of the per-vBucket fake
+	FileAll     bool       `json:"file_all,omitempty"`     // (file backend) the file exists already and lists EVERY vBucket of the bucket (written while this instance was the only member)
 }
 
 // ---------- server model (survives restarts) ----------
@@ -242,6 +243,15 @@ func newSession(sc *hScenario, oracles ...string) *session {
 		s.cfg.Metadata.Config = map[string]string{"fileName": s.fpath}
 		s.metaI = metadata.NewFSMetadata(s.cfg)
 		s.saved = map[uint16]ckTuple{}
+		if sc.FileAll {
+			all := map[uint16]*models.CheckpointDocument{}
+			for v := 0; v < sc.NumVb; v++ {
+				t := ckTuple{UUID: uint64(s.cl.failoverOf(uint16(v))[0].VbUUID)}
+				all[uint16(v)] = c02DocOf(t, "u")
+				s.saved[uint16(v)] = t
+			}
+			_ = s.metaI.Save(all, nil, "u")
+		}
 	}
 	return s
 }
